@@ -157,6 +157,10 @@ impl Wait for YieldingWait {
         }
         loop {
             yield_now();
+            // checked after every yield, so the wait also ends when spins_yield is 0
+            if check(seq, w_pos, wc) {
+                return;
+            }
             for _ in 0..self.spins_yield {
                 if check(seq, w_pos, wc) {
                     return;
